@@ -36,6 +36,9 @@ def _build(a, memo):
     if c == "str":
         return a["id"]
     var = a.get("id")
+    if var is not None and a.get("$fix") is not None:
+        # a sub-proposition whose own variable is pre-fixed to a constant by construction
+        var = puan.variable(var, (a["$fix"], a["$fix"]))
     if c == "Not":
         return pg.Not(build(a["arg"], memo))
     if c == "Imply":
@@ -191,6 +194,7 @@ def tags_of(t):
         if n["gen"]: tg.add("generated-id")
         else: tg.add("explicit-id")
         if (n["lo"], n["hi"]) != (0, 1): tg.add("prefixed-compound")
+        if n["lo"] == n["hi"] and n["kids"]: tg.add("prefixed-compound-with-children")
         tg.add("cls-" + n["cls"])
     ids = [n["id"] for n in subs(t) if n["k"] == "node"]
     if len(ids) != len(set(ids)): tg.add("shared-node")
@@ -310,7 +314,7 @@ class TreeGen:
             # explicit ids come in several shapes; some look like generated ones ("VAR…"), some sort before / after leaf names
             var = rng.choice(["N{}", "N{}", "N{}", "VAR{}", "VARIANT_{}", "n {}", "Ω{}", "A-{}"]).format(self.key())
             if self.prefix_p and rng.random() < self.prefix_p:
-                var = None  # prefixed variables are produced through assume in the properties that want them
+                self._fix_next = rng.choice([0, 1])     # this node's own variable is pre-fixed to a constant
         ast = {"$k": self.key()}
         if kind in ("AtLeast", "AtLeastS", "AtMost") and rng.random() < 0.3:
             ast["$form"] = rng.choice(["tuple", "gen", "iter", "map"])
@@ -335,6 +339,9 @@ class TreeGen:
             ast.update(c=kind, args=args)
         if var is not None:
             ast["id"] = var
+            if getattr(self, "_fix_next", None) is not None and ast["c"] not in ("ccAny", "ccXor", "Not"):
+                ast["$fix"] = self._fix_next
+        self._fix_next = None
         self.pool.append(ast)
         return ast
 
